@@ -154,10 +154,15 @@ package jpeg
 //@   ensures [C10] jr.err == nil ==> jr.discarded == old(jr.discarded) + uint32(pos(jr.br) - old(pos(jr.br)))
 
 // ScanJPEG: the marker loop. Termination: every iteration either consumes input or sets the sticky error.
+// Completeness of the scan (C10 "found regardless of other segments between them", C06 "further JPEG segments have no influence"):
+// the scan ends without an error only behind a DQT segment - every other segment is skipped or handed to its callback and the
+// scan goes on; every other way out reports an error (no marker / end of image / a failing callback).
 //@ func ScanJPEG
-//@   props C01 C02 C10
+//@   props C01 C02 C10 C06
 //@   entry
 //@   requires r != nil
+//@   ghost lastM uint8 = uint8(jr.marker)
+//@   ensures [C10 C06] err == nil ==> lastM == 0xDB
 //@   loop 0 invariant jr != nil && jr.br != nil
 // C10, absolute offsets: the running offset is the number of bytes consumed from the scanned stream since the scan began
 //@   loop 0 invariant [C10] jr.err == nil ==> jr.discarded == uint32(pos(jr.br) - atentry(0, pos(jr.br)))
